@@ -478,8 +478,8 @@ pub fn run(tier: &str) -> i32 {
     // module-scope declaration order is not significant: reversed / functions-first variants (every 4th in quick)
     let n0 = progs.len();
     for i in 0..n0 {
-        if thorough || hash64(&progs[i].key) % 4 == 1 {
-            for how in ["reverse", "rotate"] {
+        if thorough || hash64(&progs[i].key) % 4 == 1 || progs[i].key.starts_with("multi|") || progs[i].key.starts_with("pair|") && i % 5 == 0 {
+            for how in ["reverse", "rotate", "interleave"] {
                 if let Some(src) = reorder_decls(&progs[i].src, how) {
                     let mut q = progs[i].clone();
                     q.key = format!("{}|decl-order={how}", q.key);
